@@ -81,6 +81,7 @@ func c18Invocations(a *Abs, full bool) []inv {
 	} else {
 		paths = append(paths, taggedArg{"x[", []string{"name-has-regexp-meta", "arg-invalid"}}, taggedArg{"", []string{"arg:empty", "arg-invalid"}})
 	}
+	paths = append(paths, taggedArg{"\xff\xfe", []string{"name-invalid-utf8", "arg-invalid"}})
 	unknownFlag := []string{"--no-such-flag"}
 	// add / rm / restore / hash-object
 	lists(paths, 2, func(args, tags []string, bad bool) {
@@ -236,7 +237,7 @@ func c18Judge(c *Ctx, pre *State, iv inv, res *Result, post *State, module strin
 
 func checkC18(e *RunEnv) *CheckResult {
 	odd := append(seedS0(), Write("a(b", "x\n"), Write("x y", "x\n"), Write("d/x", "x\n"), Write("a+b", "x\n"), Write("é", "x\n"), Run("add", "a(b", "x y", "d", "a+b", "é"), Run("commit", "-m", "odd names"), Delete("a+b"))
-	seeds := append(allSeeds(), Seed{"odd-names", odd}, Seed{"mixed-case-branches", append(seedS1(), Run("branch", "C"), Run("branch", "d"), Run("branch", "Ab"))}, Seed{"no-repo", []Step{Write("a", "x\n")}}, Seed{"init-only", []Step{Run("init")}})
+	seeds := append(allSeeds(), Seed{"odd-names", odd}, Seed{"dir-replaced-by-file", append(seedS1(), Rmdir("d"), Write("d", "now a file\n"))}, Seed{"file-replaced-by-dir", append(seedS1(), Write("a/u", "untracked inside a former file\n"))}, Seed{"mixed-case-branches", append(seedS1(), Run("branch", "C"), Run("branch", "d"), Run("branch", "Ab"))}, Seed{"no-repo", []Step{Write("a", "x\n")}}, Seed{"init-only", []Step{Run("init")}})
 	spec := &Spec{Seeds: seeds, Depth: 0}
 	var ncase, nbases int
 	var module string
